@@ -1,4 +1,5 @@
 mod codes;
+mod compress;
 mod edns;
 mod hdr;
 mod hostile;
@@ -25,6 +26,8 @@ fn main() {
         "rdata" => rdata::run(&a),
         "packet" => packet::run(&a),
         "edns" => edns::run(&a),
+        "compress" => compress::run(&a),
+        "sinks" => compress::run_sinks(&a),
         "inspect" => inspect::run(&a),
         "framing" => hostile::run_framing(&a),
         "hostile" => hostile::run_hostile(&a),
